@@ -508,6 +508,38 @@ func runC15(c *core.Check) {
 			"the literal returned by "+name+" is not exactly s.src[start:s.offset] with `start` taken from s.offset at entry (minus the already consumed opener byte for quoted forms/comments): the token text is not the source bytes at its offset")
 	}
 
+	// ---------- (2b) the literal of a token starts where the token starts: in Scan, `pos` is taken before anything is consumed;
+	// an arm that scans an identifier, consumes more and then REPLACES the literal by the result of a second scan routine
+	// (the c"…" / py"…" arms) returns a text that starts after pos
+	{
+		n2 := 0
+		ast.Inspect(scan.Body, func(n ast.Node) bool {
+			is, ok := n.(*ast.IfStmt)
+			if !ok {
+				return true
+			}
+			kind, rescans := "", false
+			for _, st := range is.Body.List {
+				if as, ok := st.(*ast.AssignStmt); ok && len(as.Lhs) == 1 && len(as.Rhs) == 1 {
+					l, r := core.ExprStr(as.Lhs[0]), nows(core.ExprStr(as.Rhs[0]))
+					if l == "tok" && strings.HasPrefix(r, "token.") {
+						kind = strings.TrimPrefix(r, "token.")
+					}
+					if l == "lit" && strings.HasPrefix(r, "s.scan") {
+						rescans = true
+					}
+				}
+			}
+			if kind == "" || !rescans || !strings.Contains(nows(core.ExprStr(is.Cond)), "lit==") {
+				return true
+			}
+			n2++
+			c.Bad("token-text-at-pos", "Scanner.Scan:"+kind, is.Pos(), "the "+kind+" arm of Scan scans the prefix as an identifier, consumes the quote and then replaces the literal by the result of a second scan routine: the token is reported at the offset of the prefix but its text starts at the quote — the text is not the source bytes at the token's offset")
+			return true
+		})
+		c.Ok("token-text-at-pos", "census", scan.Pos(), core.Sprintf("%d arms of Scan replace the literal after consuming a prefix", n2))
+	}
+
 	// ---------- (3) unit tiling
 	if nfd := prog.FuncDecl("./scanner", "Scanner.scanNumber"); nfd != nil {
 		cut := false
